@@ -101,7 +101,10 @@ def abstract(w, sess, frames, t0, hs_len, res):
                 evs.append({"e": "Start", "st": _proj(state0 or u)})
             rec = {"e": "Iter", "st": _proj(u), "out": [], "tunw": [up.get(fr, 0) for fr in cur["tunw"]], "hs": []}
             if u["fragsize"] != fragsize or u["lazy"] != lazy:
-                return None         # settings changed after the handshake: outside this binding
+                # settings changed after the handshake (lazy mode switched off by the client, new fragment size):
+                # Tunnel.tla models one fixed setting - the bound prefix ends here
+                res["stats"]["tsrv_truncated"] = "fragment size / lazy mode changed mid-transfer"
+                break
             for hk, arg in cur["hs"]:
                 if hk == "Recv":
                     data = arg["data"] if arg else b""
@@ -127,7 +130,9 @@ def abstract(w, sess, frames, t0, hs_len, res):
                         pk, off = _locate(body, upimg, hint=(lastpk, state0["in"][2]) if state0 else None)
                         if off == UNKNOWN:
                             pk = 0
-                        lastpk = pk or lastpk
+                        # only a slice that entered the reassembly buffer tells which packet is being reassembled
+                        if pk and u["in"][2] != state0["in"][2] and u["in"][2] > 0:
+                            lastpk = pk
                         msg.update(useq=c["useq"], ufrag=c["ufrag"], last=c["last"], pkt=pk, off=off if pk else 0,
                                    len=len(body))
                     rec["hs"].append(msg)
